@@ -2,21 +2,29 @@
    Producers send the outputs of a task to their out-ports one after the other, each send blocking while the in-port's
    channel is full (Process.Run: `for oname, oip := range OutIPs { Out(oname).Send(oip) }`); a consumer receives on its
    in-ports one after the other, each receive blocking while the channel is empty (receiveOnInPorts); the order within a
-   round is whatever Go's map iteration gives.  When several producers feed the same in-ports these two sequential
-   disciplines can wait for each other.
-   Model: any number of producers, each sending, round after round, one item to every channel in an order of its own; one
-   consumer receiving, round after round, one item from every channel in an order of its own.
+   round is whatever Go's map iteration gives -- a new one in every round.  When several producers feed the same in-ports
+   these two sequential disciplines can wait for each other.
+   Model: any number of producers, each sending, round after round, one item to every channel, in an order that is chosen
+   anew for every round; one consumer receiving, round after round, one item from every channel, in an order chosen anew for
+   every round (the action that completes a round carries the order of the next one).
    Theorems: (1) fanin_no_deadlock -- if the capacity is at least the number of producers, no reachable state is stuck
-   before everything has been sent and received: every number of producers and channels, every order, every number of
-   rounds, every schedule.  (2) fanin_deadlock -- with a smaller capacity the statement is false: two producers, three
-   channels, capacity 1 (the same workflow deadlocks on the real library with SCIPIPE_BUFSIZE=1). *)
+   before everything has been sent and received: every number of producers and channels, every choice of orders, every
+   number of rounds, every schedule; fanin_step_decreases / fanin_maximal_run_completes -- every execution is finite and
+   ends with everything sent and received.  (2) fanin_deadlock -- with a smaller capacity the statement is false: two
+   producers, three channels, capacity 1 (the same workflow deadlocks on the real library with SCIPIPE_BUFSIZE=1). *)
 From Coq Require Import List Arith Lia Bool PeanoNat.
 Import ListNotations.
 
-Record prod := { po : list nat; total : nat; left : nat; ptodo : list nat }.
-Record st := { prods : list prod; corder : list nat; ctodo : list nat; crounds : nat; q : nat -> nat; cap : nat }.
+Record prod := { total : nat; left : nat; ptodo : list nat }.
+Record st := { nch : nat; prods : list prod; ctodo : list nat; crounds : nat; q : nat -> nat; cap : nat }.
 
-Inductive act := Send (i : nat) | Recv.
+(* an order: every channel 0 .. m-1 exactly once (executable) *)
+Fixpoint nodupb (l : list nat) : bool :=
+  match l with [] => true | a :: r => negb (existsb (Nat.eqb a) r) && nodupb r end.
+Definition ispermb (m : nat) (l : list nat) : bool :=
+  Nat.eqb (length l) m && forallb (fun ch => Nat.ltb ch m) l && nodupb l.
+
+Inductive act := Send (i : nat) (next : list nat) | Recv (next : list nat).
 
 Definition updf (f : nat -> nat) (k v : nat) : nat -> nat := fun j => if Nat.eqb j k then v else f j.
 
@@ -25,32 +33,37 @@ Fixpoint updl (i : nat) (x : prod) (l : list prod) : list prod :=
 
 Definition step (s : st) (a : act) : option st :=
   match a with
-  | Send i =>
+  | Send i next =>
       match nth_error (prods s) i with
       | Some p =>
           match left p, ptodo p with
           | S k, ch :: rest =>
               if Nat.ltb (q s ch) (cap s)
-              then let p' := match rest with
-                             | [] => {| po := po p; total := total p; left := k; ptodo := po p |}
-                             | _ => {| po := po p; total := total p; left := S k; ptodo := rest |}
-                             end in
-                   Some {| prods := updl i p' (prods s); corder := corder s; ctodo := ctodo s; crounds := crounds s;
-                           q := updf (q s) ch (S (q s ch)); cap := cap s |}
-              else None
+              then match rest with
+                   | [] => if ispermb (nch s) next
+                           then Some {| nch := nch s; prods := updl i {| total := total p; left := k; ptodo := next |} (prods s);
+                                        ctodo := ctodo s; crounds := crounds s; q := updf (q s) ch (S (q s ch)); cap := cap s |}
+                           else None
+                   | _ => Some {| nch := nch s; prods := updl i {| total := total p; left := S k; ptodo := rest |} (prods s);
+                                  ctodo := ctodo s; crounds := crounds s; q := updf (q s) ch (S (q s ch)); cap := cap s |}
+                   end
+              else None                                                    (* the channel is full: the send blocks *)
           | _, _ => None
           end
       | None => None
       end
-  | Recv =>
+  | Recv next =>
       match ctodo s with
       | ch :: rest =>
           match q s ch with
-          | S n => Some {| prods := prods s; corder := corder s;
-                           ctodo := (match rest with [] => corder s | _ => rest end);
-                           crounds := (match rest with [] => S (crounds s) | _ => crounds s end);
-                           q := updf (q s) ch n; cap := cap s |}
-          | 0 => None
+          | S n =>
+              match rest with
+              | [] => if ispermb (nch s) next
+                      then Some {| nch := nch s; prods := prods s; ctodo := next; crounds := S (crounds s); q := updf (q s) ch n; cap := cap s |}
+                      else None
+              | _ => Some {| nch := nch s; prods := prods s; ctodo := rest; crounds := crounds s; q := updf (q s) ch n; cap := cap s |}
+              end
+          | 0 => None                                                      (* the channel is empty: the receive blocks *)
           end
       | [] => None
       end
@@ -59,10 +72,55 @@ Definition step (s : st) (a : act) : option st :=
 Fixpoint run (s : st) (l : list act) : option st :=
   match l with [] => Some s | a :: r => match step s a with Some s' => run s' r | None => None end end.
 
-(* the initial state for given orders, rounds, consumer order and capacity *)
-Definition init (ps : list (list nat * nat)) (co : list nat) (cp : nat) : st :=
-  {| prods := map (fun x => {| po := fst x; total := snd x; left := snd x; ptodo := fst x |}) ps;
-     corder := co; ctodo := co; crounds := 0; q := fun _ => 0; cap := cp |}.
+(* the initial state: m channels, per producer its first order and its number of rounds, the consumer's first order, capacity *)
+Definition init (m : nat) (ps : list (list nat * nat)) (co : list nat) (cp : nat) : st :=
+  {| nch := m; prods := map (fun x => {| total := snd x; left := snd x; ptodo := fst x |}) ps;
+     ctodo := co; crounds := 0; q := fun _ => 0; cap := cp |}.
+
+(* ---- orders ---- *)
+Definition isperm (m : nat) (l : list nat) : Prop := NoDup l /\ forall ch, In ch l <-> ch < m.
+
+Lemma nodupb_nodup l : nodupb l = true -> NoDup l.
+Proof.
+  induction l as [|a r IH]; simpl; intros H; [constructor|].
+  apply andb_true_iff in H. destruct H as [H1 H2]. constructor; [|apply IH; exact H2].
+  intros Hin. apply negb_true_iff in H1. assert (existsb (Nat.eqb a) r = true); [|congruence].
+  apply existsb_exists. exists a. split; [exact Hin|apply Nat.eqb_refl].
+Qed.
+
+Lemma ispermb_isperm m l : ispermb m l = true -> isperm m l.
+Proof.
+  unfold ispermb. intros H. apply andb_true_iff in H. destruct H as [H H3]. apply andb_true_iff in H. destruct H as [H1 H2].
+  apply Nat.eqb_eq in H1. apply nodupb_nodup in H3. rewrite forallb_forall in H2.
+  split; [exact H3|]. intros ch. split.
+  - intros Hin. apply Nat.ltb_lt. apply H2. exact Hin.
+  - intros Hlt. assert (I : incl (seq 0 m) l).
+    { apply NoDup_length_incl; [exact H3|rewrite seq_length; lia|].
+      intros x Hx. apply in_seq. apply H2 in Hx. apply Nat.ltb_lt in Hx. lia. }
+    apply I. apply in_seq. lia.
+Qed.
+
+Lemma nodupb_seq a m : nodupb (seq a m) = true.
+Proof.
+  revert a. induction m as [|m IH]; intros a; simpl; auto. rewrite IH, andb_true_r. apply negb_true_iff.
+  destruct (existsb (Nat.eqb a) (seq (S a) m)) eqn:E; auto. apply existsb_exists in E. destruct E as [x [Hx Hxa]].
+  apply Nat.eqb_eq in Hxa. subst. apply in_seq in Hx. lia.
+Qed.
+
+Lemma ispermb_seq m : ispermb m (seq 0 m) = true.
+Proof.
+  unfold ispermb. rewrite seq_length, Nat.eqb_refl, nodupb_seq, andb_true_r. simpl.
+  apply forallb_forall. intros x Hx. apply Nat.ltb_lt. apply in_seq in Hx. lia.
+Qed.
+
+Lemma isperm_length m l : isperm m l -> length l = m.
+Proof.
+  intros [N H]. apply Nat.le_antisymm.
+  - replace m with (length (seq 0 m)) by apply seq_length. apply NoDup_incl_length; auto.
+    intros x Hx. apply in_seq. apply H in Hx. lia.
+  - replace m with (length (seq 0 m)) by apply seq_length. apply NoDup_incl_length; [apply seq_NoDup|].
+    intros x Hx. apply in_seq in Hx. apply H. lia.
+Qed.
 
 (* ---- counting ---- *)
 Definition ind (ch : nat) (todo : list nat) : nat := if in_dec Nat.eq_dec ch todo then 0 else 1.
@@ -70,23 +128,20 @@ Definition sent (p : prod) (ch : nat) : nat := (total p - left p) + ind ch (ptod
 Definition rcvd (s : st) (ch : nat) : nat := crounds s + ind ch (ctodo s).
 Fixpoint sumsent (l : list prod) (ch : nat) : nat := match l with [] => 0 | p :: r => sent p ch + sumsent r ch end.
 
-Definition suffix (a b : list nat) : Prop := exists pre, b = pre ++ a.
-
-Definition pok (m : nat) (p : prod) : Prop :=
-  NoDup (po p) /\ (forall ch, In ch (po p) <-> ch < m) /\ left p <= total p /\ suffix (ptodo p) (po p) /\ ptodo p <> [] /\
-  (left p = 0 -> ptodo p = po p).
+(* what is still to do in the current round: distinct channels, not empty; a full order when nothing is left to do *)
+Definition todo_ok (m : nat) (l : list nat) : Prop := NoDup l /\ (forall ch, In ch l -> ch < m) /\ l <> [].
+Definition pok (m : nat) (p : prod) : Prop := todo_ok m (ptodo p) /\ left p <= total p /\ (left p = 0 -> isperm m (ptodo p)).
 
 Record Inv (m : nat) (s : st) : Prop := {
   i_m : 1 <= m;
-  i_co : NoDup (corder s) /\ (forall ch, In ch (corder s) <-> ch < m);
-  i_ct : suffix (ctodo s) (corder s) /\ ctodo s <> [];
+  i_n : nch s = m;
+  i_ct : todo_ok m (ctodo s);
   i_p : Forall (pok m) (prods s);
   i_q : forall ch, ch < m -> q s ch + rcvd s ch = sumsent (prods s) ch
 }.
 
 Definition wf_in (m : nat) (ps : list (list nat * nat)) (co : list nat) : Prop :=
-  1 <= m /\ NoDup co /\ (forall ch, In ch co <-> ch < m) /\
-  Forall (fun x => NoDup (fst x) /\ (forall ch, In ch (fst x) <-> ch < m)) ps.
+  1 <= m /\ isperm m co /\ Forall (fun x => isperm m (fst x)) ps.
 
 Lemma ind_in ch l : In ch l -> ind ch l = 0.
 Proof. unfold ind. destruct (in_dec Nat.eq_dec ch l); tauto. Qed.
@@ -94,67 +149,54 @@ Lemma ind_notin ch l : ~ In ch l -> ind ch l = 1.
 Proof. unfold ind. destruct (in_dec Nat.eq_dec ch l); tauto. Qed.
 Lemma ind_le1 ch l : ind ch l <= 1.
 Proof. unfold ind. destruct (in_dec Nat.eq_dec ch l); lia. Qed.
-
-Lemma nonempty_of_lt (l : list nat) m : 1 <= m -> (forall ch, In ch l <-> ch < m) -> l <> [].
-Proof. intros Hm H E. subst. destruct (proj2 (H 0) ltac:(lia)). Qed.
-
-Lemma init_inv m ps co cp : wf_in m ps co -> Inv m (init ps co cp).
+Lemma ind_tail ch a r : ch <> a -> ind ch (a :: r) = ind ch r.
 Proof.
-  intros [Hm [Hn [Hc Hp]]]. constructor; simpl; auto.
-  - split; [exists []; reflexivity|eapply nonempty_of_lt; eauto].
-  - induction Hp as [|x r [Hx1 Hx2] Hr IH]; simpl; constructor; auto.
-    unfold pok; simpl. repeat split; auto; try apply Hx2; try (exists []; reflexivity).
-    eapply nonempty_of_lt; eauto.
+  intros Hne. unfold ind. destruct (in_dec Nat.eq_dec ch (a :: r)) as [H1|H1]; destruct (in_dec Nat.eq_dec ch r) as [H2|H2]; auto.
+  - exfalso. destruct H1 as [H1|H1]; [congruence|contradiction].
+  - exfalso. apply H1. right. exact H2.
+Qed.
+
+Lemma isperm_todo m l : 1 <= m -> isperm m l -> todo_ok m l.
+Proof.
+  intros Hm [N H]. split; [exact N|]. split; [intros ch Hc; apply H; exact Hc|].
+  intros E. subst. destruct (proj2 (H 0) ltac:(lia)).
+Qed.
+
+Lemma init_inv m ps co cp : wf_in m ps co -> Inv m (init m ps co cp).
+Proof.
+  intros [Hm [Hc Hp]]. constructor; simpl; auto.
+  - apply isperm_todo; auto.
+  - induction Hp as [|x r Hx Hr IH]; simpl; constructor; auto.
+    unfold pok; simpl. split; [apply isperm_todo; auto|]. split; [lia|]. intros _. exact Hx.
   - intros ch Hch. unfold rcvd; simpl. rewrite ind_in by (apply Hc; exact Hch).
-    induction Hp as [|x r [Hx1 Hx2] Hr IH]; simpl; auto. rewrite <- IH. unfold sent; simpl.
-    rewrite ind_in by (apply Hx2; exact Hch). lia.
+    induction Hp as [|x r Hx Hr IH]; simpl; auto. rewrite <- IH. unfold sent; simpl.
+    rewrite ind_in by (apply Hx; exact Hch). lia.
 Qed.
 
 (* ---- one step of a producer, in terms of what it has sent ---- *)
-Lemma suffix_cons_notin a rest l : NoDup l -> suffix (a :: rest) l -> ~ In a rest.
+Lemma adv_mid m p k ch0 c2 r2 : pok m p -> left p = S k -> ptodo p = ch0 :: c2 :: r2 ->
+  let p' := {| total := total p; left := S k; ptodo := c2 :: r2 |} in
+  pok m p' /\ forall ch, sent p' ch = sent p ch + (if Nat.eqb ch ch0 then 1 else 0).
 Proof.
-  intros N [pre E]. subst. apply NoDup_remove_2 in N. intros H. apply N. apply in_or_app. right. exact H.
+  intros [[N [B Ne]] [L Z]] Hl Ht. rewrite Ht in N, B. apply NoDup_cons_iff in N. destruct N as [Hnot N']. simpl. split.
+  - unfold pok; simpl. split; [|split; [lia|discriminate]].
+    split; [exact N'|]. split; [intros ch Hc; apply B; right; exact Hc|discriminate].
+  - intros ch. unfold sent; simpl. rewrite Hl, Ht.
+    destruct (Nat.eqb_spec ch ch0) as [->|Hne]; cbv iota.
+    + rewrite (ind_in ch0 (ch0 :: c2 :: r2)) by (left; reflexivity). rewrite (ind_notin ch0 (c2 :: r2)) by exact Hnot. lia.
+    + rewrite (ind_tail ch ch0 (c2 :: r2)) by exact Hne. lia.
 Qed.
 
-Lemma suffix_tail a rest l : suffix (a :: rest) l -> suffix rest l.
-Proof. intros [pre E]. exists (pre ++ [a]). rewrite <- app_assoc. exact E. Qed.
-
-Lemma suffix_in a rest l : suffix (a :: rest) l -> In a l.
-Proof. intros [pre E]. subst. apply in_or_app. right. left. reflexivity. Qed.
-
-Definition adv (p : prod) : prod :=
-  match left p, ptodo p with
-  | S k, ch :: [] => {| po := po p; total := total p; left := k; ptodo := po p |}
-  | S k, ch :: rest => {| po := po p; total := total p; left := S k; ptodo := rest |}
-  | _, _ => p
-  end.
-
-Lemma adv_sent m p k ch0 rest : pok m p -> left p = S k -> ptodo p = ch0 :: rest ->
-  pok m (adv p) /\ forall ch, ch < m -> sent (adv p) ch = sent p ch + (if Nat.eqb ch ch0 then 1 else 0).
+Lemma adv_end m p k ch0 next : 1 <= m -> pok m p -> left p = S k -> ptodo p = [ch0] -> isperm m next ->
+  let p' := {| total := total p; left := k; ptodo := next |} in
+  pok m p' /\ forall ch, ch < m -> sent p' ch = sent p ch + (if Nat.eqb ch ch0 then 1 else 0).
 Proof.
-  intros [N [M [L [Sf [Ne Z]]]]] Hl Ht. unfold adv. rewrite Hl, Ht.
-  pose proof (suffix_cons_notin ch0 rest (po p) N ltac:(rewrite <- Ht; exact Sf)) as Hnot.
-  pose proof (suffix_in ch0 rest (po p) ltac:(rewrite <- Ht; exact Sf)) as Hin0.
-  destruct rest as [|c2 r2].
-  - split.
-    + unfold pok; simpl. repeat split; auto; try apply M; try lia; try (exists []; reflexivity).
-      intros E. rewrite E in Hin0. destruct Hin0.
-    + intros ch Hch. unfold sent; simpl. rewrite Hl, Ht.
-      destruct (Nat.eqb_spec ch ch0) as [->|Hne]; cbv iota.
-      * rewrite ind_in by exact Hin0. rewrite ind_in by (left; reflexivity). lia.
-      * rewrite (ind_notin ch [ch0]) by (simpl; intros [?|[]]; congruence).
-        destruct (in_dec Nat.eq_dec ch (po p)) as [Hi|Hn].
-        -- rewrite ind_in by exact Hi. lia.
-        -- exfalso. apply Hn. apply M. exact Hch.
-  - split.
-    + unfold pok; simpl. repeat split; auto; try apply M; try lia; try discriminate.
-      rewrite Ht in Sf. eapply suffix_tail; eauto.
-    + intros ch Hch. unfold sent; simpl. rewrite Hl, Ht.
-      destruct (Nat.eqb_spec ch ch0) as [->|Hne]; cbv iota.
-      * rewrite (ind_in ch0 (ch0 :: c2 :: r2)) by (left; reflexivity). rewrite (ind_notin ch0 (c2 :: r2)) by exact Hnot. lia.
-      * unfold ind. destruct (in_dec Nat.eq_dec ch (c2 :: r2)) as [H1|H1]; destruct (in_dec Nat.eq_dec ch (ch0 :: c2 :: r2)) as [H2|H2]; try lia.
-        -- exfalso. apply H2. right. exact H1.
-        -- exfalso. destruct H2 as [H2|H2]; [congruence|contradiction].
+  intros Hm [[N [B Ne]] [L Z]] Hl Ht Hn. simpl. split.
+  - unfold pok; simpl. split; [apply isperm_todo; auto|]. split; [lia|]. intros _. exact Hn.
+  - intros ch Hch. unfold sent; simpl. rewrite Hl, Ht. rewrite (ind_in ch next) by (apply Hn; exact Hch).
+    destruct (Nat.eqb_spec ch ch0) as [->|Hne]; cbv iota.
+    + rewrite ind_in by (left; reflexivity). lia.
+    + rewrite (ind_notin ch [ch0]) by (simpl; intros [?|[]]; congruence). lia.
 Qed.
 
 Lemma sumsent_updl l : forall i p p' ch, nth_error l i = Some p ->
@@ -175,47 +217,47 @@ Proof. intros F H. rewrite Forall_forall in F. apply F. eapply nth_error_In; eau
 
 Lemma step_inv m s a s' : Inv m s -> step s a = Some s' -> Inv m s'.
 Proof.
-  intros [Hm Hco Hct Hp Hq] H. destruct a as [i|]; simpl in H.
+  intros [Hm Hn Hct Hp Hq] H. destruct a as [i next|next]; simpl in H.
   - destruct (nth_error (prods s) i) as [p|] eqn:Hi; [|discriminate].
     destruct (left p) as [|k] eqn:Hl; [discriminate|].
     destruct (ptodo p) as [|ch0 rest] eqn:Ht; [discriminate|].
     destruct (Nat.ltb (q s ch0) (cap s)) eqn:Hc; [|discriminate].
     pose proof (nth_forall _ _ _ _ Hp Hi) as Pk.
-    destruct (adv_sent m p k ch0 rest Pk Hl Ht) as [Pk' Hs].
-    assert (Ea : adv p = match rest with
-                         | [] => {| po := po p; total := total p; left := k; ptodo := po p |}
-                         | _ :: _ => {| po := po p; total := total p; left := S k; ptodo := rest |}
-                         end).
-    { unfold adv. rewrite Hl, Ht. destruct rest; reflexivity. }
-    rewrite <- Ea in H. injection H as <-. constructor; simpl; auto.
-    + apply forall_updl; auto.
-    + intros ch Hch. unfold rcvd; simpl.
-      pose proof (sumsent_updl (prods s) i p (adv p) ch Hi) as E. rewrite (Hs ch Hch) in E.
-      specialize (Hq ch Hch). unfold rcvd in Hq. unfold updf.
-      destruct (Nat.eqb_spec ch ch0) as [->|Hne]; cbv iota; lia.
+    assert (Hc0 : ch0 < m) by (destruct Pk as [[_ [B _]] _]; apply B; rewrite Ht; left; reflexivity).
+    destruct rest as [|c2 r2].
+    + destruct (ispermb (nch s) next) eqn:Hperm; [|discriminate]. rewrite Hn in Hperm. apply ispermb_isperm in Hperm.
+      injection H as <-. destruct (adv_end m p k ch0 next Hm Pk Hl Ht Hperm) as [Pk' Hs].
+      constructor; simpl; auto.
+      * apply forall_updl; auto.
+      * intros ch Hch. unfold rcvd; simpl.
+        pose proof (sumsent_updl (prods s) i p {| total := total p; left := k; ptodo := next |} ch Hi) as E. rewrite (Hs ch Hch) in E.
+        specialize (Hq ch Hch). unfold rcvd in Hq. unfold updf.
+        destruct (Nat.eqb_spec ch ch0) as [->|Hne]; cbv iota in E; lia.
+    + injection H as <-. destruct (adv_mid m p k ch0 c2 r2 Pk Hl Ht) as [Pk' Hs].
+      constructor; simpl; auto.
+      * apply forall_updl; auto.
+      * intros ch Hch. unfold rcvd; simpl.
+        pose proof (sumsent_updl (prods s) i p {| total := total p; left := S k; ptodo := c2 :: r2 |} ch Hi) as E. rewrite (Hs ch) in E.
+        specialize (Hq ch Hch). unfold rcvd in Hq. unfold updf.
+        destruct (Nat.eqb_spec ch ch0) as [->|Hne]; cbv iota in E; lia.
   - destruct (ctodo s) as [|ch0 rest] eqn:Ht; [discriminate|].
-    destruct (q s ch0) as [|n] eqn:Hq0; [discriminate|]. injection H as <-.
-    destruct Hco as [Nc Mc]. destruct Hct as [Sf Ne].
-    pose proof (suffix_cons_notin ch0 rest (corder s) Nc Sf) as Hnot.
-    pose proof (suffix_in ch0 rest (corder s) Sf) as Hin0.
-    constructor; simpl; auto.
-    + destruct rest as [|c2 r2].
-      * split; [exists []; reflexivity|]. intros E. rewrite E in Hin0. destruct Hin0.
-      * split; [eapply suffix_tail; eauto|discriminate].
-    + intros ch Hch. specialize (Hq ch Hch). unfold rcvd in *; simpl. rewrite Ht in Hq. unfold updf.
-      destruct (Nat.eqb_spec ch ch0) as [->|Hne]; cbv iota.
-      * rewrite Hq0 in Hq. rewrite ind_in in Hq by (left; reflexivity).
-        destruct rest as [|c2 r2].
-        -- rewrite ind_in by exact Hin0. lia.
-        -- rewrite ind_notin by exact Hnot. lia.
-      * destruct rest as [|c2 r2].
-        -- rewrite (ind_notin ch [ch0]) in Hq by (simpl; intros [?|[]]; congruence).
-           rewrite ind_in by (apply Mc; exact Hch). lia.
-        -- assert (ind ch (c2 :: r2) = ind ch (ch0 :: c2 :: r2)).
-           { unfold ind. destruct (in_dec Nat.eq_dec ch (c2 :: r2)) as [H1|H1]; destruct (in_dec Nat.eq_dec ch (ch0 :: c2 :: r2)) as [H2|H2]; try lia.
-             - exfalso. apply H2. right. exact H1.
-             - exfalso. destruct H2 as [H2|H2]; [congruence|contradiction]. }
-           lia.
+    destruct (q s ch0) as [|n] eqn:Hq0; [discriminate|].
+    destruct Hct as [N [B Ne]]. apply NoDup_cons_iff in N. destruct N as [Hnot N'].
+    destruct rest as [|c2 r2].
+    + destruct (ispermb (nch s) next) eqn:Hperm; [|discriminate]. rewrite Hn in Hperm. apply ispermb_isperm in Hperm.
+      injection H as <-. constructor; simpl; auto.
+      * apply isperm_todo; auto.
+      * intros ch Hch. specialize (Hq ch Hch). unfold rcvd in *; simpl. rewrite Ht in Hq. unfold updf.
+        rewrite (ind_in ch next) by (apply Hperm; exact Hch).
+        destruct (Nat.eqb_spec ch ch0) as [->|Hne].
+        -- rewrite Hq0 in Hq. rewrite ind_in in Hq by (left; reflexivity). lia.
+        -- rewrite (ind_notin ch [ch0]) in Hq by (simpl; intros [?|[]]; congruence). lia.
+    + injection H as <-. constructor; simpl; auto.
+      * split; [exact N'|]. split; [intros ch Hc; apply B; right; exact Hc|discriminate].
+      * intros ch Hch. specialize (Hq ch Hch). unfold rcvd in *; simpl. rewrite Ht in Hq. unfold updf.
+        destruct (Nat.eqb_spec ch ch0) as [->|Hne].
+        -- rewrite Hq0 in Hq. rewrite ind_in in Hq by (left; reflexivity). rewrite ind_notin by exact Hnot. lia.
+        -- rewrite (ind_tail ch ch0 (c2 :: r2)) in Hq by exact Hne. lia.
 Qed.
 
 Lemma run_inv m l : forall s s', Inv m s -> run s l = Some s' -> Inv m s'.
@@ -228,13 +270,9 @@ Qed.
 (* ---- progress ---- *)
 Definition finished (m : nat) (s : st) : Prop := Forall (fun p => left p = 0) (prods s) /\ forall ch, ch < m -> q s ch = 0.
 
-(* the difference of what the producers have sent on two channels is at most their number, and less if one of them has
-   not sent on the first one in its current round *)
-Lemma sumsent_diff m l a b : Forall (pok m) l ->
-  sumsent l a <= sumsent l b + length l.
+Lemma sumsent_diff m l a b : Forall (pok m) l -> sumsent l a <= sumsent l b + length l.
 Proof.
-  induction 1 as [|p l Pk F IH]; simpl; [lia|].
-  unfold sent. pose proof (ind_le1 a (ptodo p)). lia.
+  induction 1 as [|p l Pk F IH]; simpl; [lia|]. unfold sent. pose proof (ind_le1 a (ptodo p)). lia.
 Qed.
 
 Lemma sumsent_diff_strict m l a b i p : Forall (pok m) l -> nth_error l i = Some p -> In a (ptodo p) ->
@@ -253,21 +291,22 @@ Proof.
   - right. exists 0, x. auto.
 Qed.
 
-Lemma sumsent_done m l ch : Forall (pok m) l -> Forall (fun p => left p = 0) l -> ch < m ->
-  sumsent l ch = fold_right (fun p acc => total p + acc) 0 l.
+Fixpoint tsum (l : list prod) : nat := match l with [] => 0 | p :: r => total p + tsum r end.
+
+Lemma sumsent_done m l ch : Forall (pok m) l -> Forall (fun p => left p = 0) l -> ch < m -> sumsent l ch = tsum l.
 Proof.
   intros F Z Hch. induction F as [|p l Pk F IH]; simpl; auto. inversion Z; subst.
-  rewrite IH by assumption. unfold sent. destruct Pk as [_ [M [_ [_ [_ Zp]]]]].
-  rewrite (Zp H1). rewrite ind_in by (apply M; exact Hch). lia.
+  rewrite IH by assumption. unfold sent. destruct Pk as [_ [_ Zp]].
+  rewrite ind_in by (apply (Zp H1); exact Hch). lia.
 Qed.
 
 Theorem fanin_progress m s : Inv m s -> length (prods s) <= cap s -> ~ finished m s -> exists a, step s a <> None.
 Proof.
-  intros [Hm [Nc Mc] [Sf Ne] Hp Hq] Hcap Hnf.
+  intros [Hm Hn [N [B Ne]] Hp Hq] Hcap Hnf.
   destruct (ctodo s) as [|c' rest] eqn:Ht; [congruence|].
-  assert (Hc' : c' < m) by (apply Mc; eapply suffix_in; exact Sf).
+  assert (Hc' : c' < m) by (apply B; left; reflexivity).
   destruct (q s c') as [|n] eqn:Q'.
-  2: { exists Recv. simpl. rewrite Ht, Q'. discriminate. }
+  2: { exists (Recv (seq 0 m)). simpl. rewrite Ht, Q'. destruct rest; [rewrite Hn, ispermb_seq|]; discriminate. }
   destruct (all_left_zero_or (prods s)) as [Z|[i [p [Hi Hl]]]].
   - (* everybody has sent everything: then everything has been received *)
     exfalso. apply Hnf. split; [exact Z|]. intros ch Hch.
@@ -275,42 +314,46 @@ Proof.
     rewrite (sumsent_done m _ ch Hp Z Hch) in E1. rewrite (sumsent_done m _ c' Hp Z Hc') in E2.
     unfold rcvd in *. rewrite Ht in E1, E2. rewrite (ind_in c') in E2 by (left; reflexivity).
     pose proof (ind_le1 ch (c' :: rest)). lia.
-  - pose proof (nth_forall _ _ _ _ Hp Hi) as [Np [Mp [Lp [Sp [Nep Zp]]]]].
+  - pose proof (nth_forall _ _ _ _ Hp Hi) as [[Np [Bp Nep]] [Lp Zp]].
     destruct (left p) as [|k] eqn:El; [congruence|].
     destruct (ptodo p) as [|c0 r0] eqn:Et; [congruence|].
-    assert (Hc0 : c0 < m) by (apply Mp; eapply suffix_in; exact Sp).
+    assert (Hc0 : c0 < m) by (apply Bp; left; reflexivity).
     destruct (Nat.ltb (q s c0) (cap s)) eqn:Hlt.
-    + exists (Send i). simpl. rewrite Hi, El, Et, Hlt. discriminate.
+    + exists (Send i (seq 0 m)). simpl. rewrite Hi, El, Et, Hlt. destruct r0; [rewrite Hn, ispermb_seq|]; discriminate.
     + exfalso. apply Nat.ltb_ge in Hlt.
       pose proof (Hq c0 Hc0) as E0. pose proof (Hq c' Hc') as E'.
       unfold rcvd in *. rewrite Ht in E0, E'. rewrite (ind_in c') in E' by (left; reflexivity). rewrite Q' in E'.
       pose proof (sumsent_diff_strict m (prods s) c0 c' i p Hp Hi ltac:(rewrite Et; left; reflexivity)). lia.
 Qed.
 
-(* from the initial state, for every schedule *)
+Lemma run_shape l : forall s s', run s l = Some s' -> length (prods s') = length (prods s) /\ cap s' = cap s.
+Proof.
+  assert (UL : forall (l : list prod) i x, length (updl i x l) = length l).
+  { induction l0 as [|y l0 IH]; intros [|i] x; simpl; auto. }
+  induction l as [|a l IH]; simpl; intros s s' H.
+  - injection H as <-. auto.
+  - destruct (step s a) as [s1|] eqn:E; [|discriminate]. destruct (IH s1 s' H) as [A B].
+    assert (length (prods s1) = length (prods s) /\ cap s1 = cap s).
+    { destruct a as [i next|next]; simpl in E.
+      - destruct (nth_error (prods s) i); [|discriminate]. destruct (left p); [discriminate|]. destruct (ptodo p) as [|c r]; [discriminate|].
+        destruct (Nat.ltb _ _); [|discriminate]. destruct r; [destruct (ispermb _ _); [|discriminate]|]; injection E as <-; simpl; rewrite UL; auto.
+      - destruct (ctodo s) as [|c r]; [discriminate|]. destruct (q s c); [discriminate|].
+        destruct r; [destruct (ispermb _ _); [|discriminate]|]; injection E as <-; simpl; auto. }
+    lia.
+Qed.
+
+(* from the initial state, for every schedule and every choice of orders along it *)
 Theorem fanin_no_deadlock m ps co cp l s :
-  wf_in m ps co -> length ps <= cp -> run (init ps co cp) l = Some s -> ~ finished m s -> exists a, step s a <> None.
+  wf_in m ps co -> length ps <= cp -> run (init m ps co cp) l = Some s -> ~ finished m s -> exists a, step s a <> None.
 Proof.
   intros W Hc R Hnf. pose proof (run_inv m l _ _ (init_inv m ps co cp W) R) as I.
   apply (fanin_progress m s I); auto.
-  assert (Hlen : forall l s s', run s l = Some s' -> length (prods s') = length (prods s) /\ cap s' = cap s).
-  { clear. induction l as [|a l IH]; simpl; intros s s' H.
-    - injection H as <-. auto.
-    - destruct (step s a) as [s1|] eqn:E; [|discriminate]. destruct (IH s1 s' H) as [A B].
-      assert (length (prods s1) = length (prods s) /\ cap s1 = cap s).
-      { destruct a as [i|]; simpl in E.
-        - destruct (nth_error (prods s) i); [|discriminate]. destruct (left p); [discriminate|]. destruct (ptodo p); [discriminate|].
-          destruct (Nat.ltb _ _); [|discriminate]. injection E as <-. simpl. split; auto.
-          clear. generalize (prods s). intros l. revert i. induction l as [|x l IH]; intros [|i]; simpl; auto.
-        - destruct (ctodo s); [discriminate|]. destruct (q s n); [discriminate|]. injection E as <-. simpl. auto. }
-      lia. }
-  destruct (Hlen l _ _ R) as [A B]. rewrite A, B. simpl. rewrite map_length. exact Hc.
+  destruct (run_shape l _ _ R) as [A B]. rewrite A, B. simpl. rewrite map_length. exact Hc.
 Qed.
 
 (* ---- termination: every step strictly decreases the number of sends and receives still to come ---- *)
 Definition prem (m : nat) (p : prod) : nat := match left p with 0 => 0 | S k => k * m + length (ptodo p) end.
 Fixpoint psum (m : nat) (l : list prod) : nat := match l with [] => 0 | p :: r => prem m p + psum m r end.
-Fixpoint tsum (l : list prod) : nat := match l with [] => 0 | p :: r => total p + tsum r end.
 Definition measure (m : nat) (s : st) : nat := psum m (prods s) + (tsum (prods s) - crounds s) * m + length (ctodo s).
 
 Lemma psum_updl m l : forall i p p', nth_error l i = Some p -> psum m (updl i p' l) + prem m p = psum m l + prem m p'.
@@ -327,84 +370,49 @@ Proof.
   - rewrite (IH i p p' H E). reflexivity.
 Qed.
 
-Lemma length_of_perm (l : list nat) m : NoDup l -> (forall ch, In ch l <-> ch < m) -> length l = m.
-Proof.
-  intros N H. apply Nat.le_antisymm.
-  - replace m with (length (seq 0 m)) by apply seq_length. apply NoDup_incl_length; auto.
-    intros x Hx. apply in_seq. apply H in Hx. lia.
-  - replace m with (length (seq 0 m)) by apply seq_length. apply NoDup_incl_length; [apply seq_NoDup|].
-    intros x Hx. apply in_seq in Hx. apply H. lia.
-Qed.
-
 Lemma sumsent_le_tsum m l ch : ch < m -> Forall (pok m) l -> sumsent l ch <= tsum l.
 Proof.
-  intros Hch F. induction F as [|p l Pk F IH]; simpl; auto. destruct Pk as [Np [Mp [Lp [Sp [Nep Zp]]]]].
+  intros Hch F. induction F as [|p l Pk F IH]; simpl; auto. destruct Pk as [_ [Lp Zp]].
   unfold sent. pose proof (ind_le1 ch (ptodo p)).
   destruct (Nat.eq_dec (left p) 0) as [E|E].
-  - rewrite (Zp E). rewrite ind_in by (apply Mp; exact Hch). lia.
+  - rewrite ind_in by (apply (Zp E); exact Hch). lia.
   - lia.
-Qed.
-
-(* the consumer never completes more rounds than the producers have items for *)
-Lemma crounds_le m s : Inv m s -> crounds s + (if Nat.eqb (length (ctodo s)) m then 0 else 1) <= tsum (prods s).
-Proof.
-  intros [Hm [Nc Mc] [Sf Ne] Hp Hq].
-  assert (B : forall l ch, ch < m -> Forall (pok m) l -> sumsent l ch <= tsum l).
-  { intros l ch Hch F. induction F as [|p l Pk F IH]; simpl; auto. destruct Pk as [Np [Mp [Lp [Sp [Nep Zp]]]]].
-    unfold sent. pose proof (ind_le1 ch (ptodo p)).
-    destruct (Nat.eq_dec (left p) 0) as [E|E].
-    - rewrite (Zp E). rewrite ind_in by (apply Mp; exact Hch). lia.
-    - lia. }
-  destruct (Nat.eqb_spec (length (ctodo s)) m) as [E|E].
-  - (* at the start of a round *) destruct (ctodo s) as [|c0 r] eqn:Ht; [congruence|].
-    assert (Hc : c0 < m) by (apply Mc; eapply suffix_in; exact Sf).
-    pose proof (Hq c0 Hc) as Q. unfold rcvd in Q. rewrite Ht in Q. rewrite ind_in in Q by (left; reflexivity).
-    pose proof (B (prods s) c0 Hc Hp). lia.
-  - (* in the middle of a round: some channel of the consumer's order has been received already *)
-    destruct Sf as [pre Epre]. pose proof (length_of_perm (corder s) m Nc Mc) as Lc.
-    destruct pre as [|c0 pre'].
-    + simpl in Epre. rewrite Epre in Lc. congruence.
-    + assert (Hin : In c0 (corder s)) by (rewrite Epre; left; reflexivity).
-      assert (Hc : c0 < m) by (apply Mc; exact Hin).
-      assert (Hnot : ~ In c0 (ctodo s)).
-      { rewrite Epre in Nc. simpl in Nc. inversion Nc; subst. intros H. apply H1. apply in_or_app. right. exact H. }
-      pose proof (Hq c0 Hc) as Q. unfold rcvd in Q. rewrite ind_notin in Q by exact Hnot.
-      pose proof (B (prods s) c0 Hc Hp). lia.
 Qed.
 
 Theorem fanin_step_decreases m s a s' : Inv m s -> step s a = Some s' -> measure m s' < measure m s.
 Proof.
-  intros I H. pose proof I as [Hm [Nc Mc] [Sf Ne] Hp Hq]. unfold measure. destruct a as [i|]; simpl in H.
+  intros I H. pose proof I as [Hm Hn [N [B Ne]] Hp Hq]. unfold measure. destruct a as [i next|next]; simpl in H.
   - destruct (nth_error (prods s) i) as [p|] eqn:Hi; [|discriminate].
     destruct (left p) as [|k] eqn:Hl; [discriminate|].
     destruct (ptodo p) as [|ch0 rest] eqn:Ht; [discriminate|].
-    destruct (Nat.ltb (q s ch0) (cap s)); [|discriminate]. injection H as <-. simpl.
-    pose proof (nth_forall _ _ _ _ Hp Hi) as [Np [Mp _]]. pose proof (length_of_perm (po p) m Np Mp) as Lp.
+    destruct (Nat.ltb (q s ch0) (cap s)); [|discriminate].
     destruct rest as [|c2 r2].
-    + pose proof (psum_updl m (prods s) i p {| po := po p; total := total p; left := k; ptodo := po p |} Hi) as E.
-      rewrite (tsum_updl (prods s) i p {| po := po p; total := total p; left := k; ptodo := po p |} Hi eq_refl).
+    + destruct (ispermb (nch s) next) eqn:Hperm; [|discriminate]. rewrite Hn in Hperm. apply ispermb_isperm in Hperm.
+      pose proof (isperm_length m next Hperm) as Ln. injection H as <-. simpl.
+      pose proof (psum_updl m (prods s) i p {| total := total p; left := k; ptodo := next |} Hi) as E.
+      rewrite (tsum_updl (prods s) i p {| total := total p; left := k; ptodo := next |} Hi eq_refl).
       unfold prem in E. simpl in E. rewrite Hl, Ht in E. simpl in E. destruct k; simpl in E; lia.
-    + pose proof (psum_updl m (prods s) i p {| po := po p; total := total p; left := S k; ptodo := c2 :: r2 |} Hi) as E.
-      rewrite (tsum_updl (prods s) i p {| po := po p; total := total p; left := S k; ptodo := c2 :: r2 |} Hi eq_refl).
+    + injection H as <-. simpl.
+      pose proof (psum_updl m (prods s) i p {| total := total p; left := S k; ptodo := c2 :: r2 |} Hi) as E.
+      rewrite (tsum_updl (prods s) i p {| total := total p; left := S k; ptodo := c2 :: r2 |} Hi eq_refl).
       unfold prem in E. simpl in E. rewrite Hl, Ht in E. simpl in E. lia.
   - destruct (ctodo s) as [|ch0 rest] eqn:Ht; [discriminate|].
-    destruct (q s ch0) as [|n] eqn:Q0; [discriminate|]. injection H as <-. simpl.
-    assert (Hc0 : ch0 < m) by (apply Mc; eapply suffix_in; exact Sf).
+    destruct (q s ch0) as [|n] eqn:Q0; [discriminate|].
+    assert (Hc0 : ch0 < m) by (apply B; left; reflexivity).
     pose proof (Hq ch0 Hc0) as Q. unfold rcvd in Q. rewrite Ht, Q0 in Q. rewrite ind_in in Q by (left; reflexivity).
-    pose proof (sumsent_le_tsum m (prods s) ch0 Hc0 Hp) as B.
-    pose proof (length_of_perm (corder s) m Nc Mc) as Lc.
-    destruct rest as [|c2 r2]; simpl.
-    + rewrite Lc. nia.
-    + lia.
+    pose proof (sumsent_le_tsum m (prods s) ch0 Hc0 Hp) as Bd.
+    destruct rest as [|c2 r2].
+    + destruct (ispermb (nch s) next) eqn:Hperm; [|discriminate]. rewrite Hn in Hperm. apply ispermb_isperm in Hperm.
+      pose proof (isperm_length m next Hperm) as Ln. injection H as <-. simpl. rewrite Ln. nia.
+    + injection H as <-. simpl. lia.
 Qed.
 
 (* with fanin_no_deadlock: a run that cannot be extended has sent and received everything *)
 Theorem fanin_maximal_run_completes m ps co cp l s :
-  wf_in m ps co -> length ps <= cp -> run (init ps co cp) l = Some s -> (forall a, step s a = None) ->
+  wf_in m ps co -> length ps <= cp -> run (init m ps co cp) l = Some s -> (forall a, step s a = None) ->
   Forall (fun p => left p = 0) (prods s) /\ forall ch, ch < m -> q s ch = 0.
 Proof.
   intros W Hc R Hmax.
-  assert (D : forall P : Prop, (~ ~ P) -> (P \/ ~ P) -> P) by tauto.
   assert (Dec : finished m s \/ ~ finished m s).
   { unfold finished.
     assert (D1 : Forall (fun p => left p = 0) (prods s) \/ ~ Forall (fun p => left p = 0) (prods s)).
@@ -426,25 +434,25 @@ Qed.
 (* non-vacuity: the configuration of finding D21 with capacity 2 satisfies the hypotheses *)
 Example fanin_wf_example : wf_in 3 [([0; 1; 2], 1); ([1; 0; 2], 1)] [2; 0; 1] /\ length [([0; 1; 2], 1); ([1; 0; 2], 1)] <= 2.
 Proof.
-  assert (ND : forall a b c : nat, a <> b -> a <> c -> b <> c -> NoDup [a; b; c]).
-  { intros a b c H1 H2 H3. constructor; [simpl; intuition|]. constructor; [simpl; intuition|]. constructor; [simpl; intuition|constructor]. }
-  split; [|simpl; lia]. unfold wf_in. split; [lia|]. split; [apply ND; lia|]. split; [intros ch; simpl; lia|].
-  constructor; [simpl; split; [apply ND; lia|intros ch; simpl; lia]|].
-  constructor; [simpl; split; [apply ND; lia|intros ch; simpl; lia]|constructor].
+  split; [|simpl; lia]. unfold wf_in. split; [lia|].
+  split; [apply ispermb_isperm; reflexivity|].
+  constructor; [simpl; apply ispermb_isperm; reflexivity|]. constructor; [simpl; apply ispermb_isperm; reflexivity|constructor].
 Qed.
 
 (* ---- the statement is false for smaller buffers: finding D21 ---- *)
-Definition all_done (s : st) : bool := forallb (fun p => Nat.eqb (left p) 0) (prods s).
-Definition stuck (s : st) : bool :=
-  forallb (fun a => match step s a with None => true | Some _ => false end) (Recv :: map Send (seq 0 (length (prods s)))).
+(* A sends to ports 0, 1, 2 in this order, B to 1, 0, 2; the consumer receives on 2, 0, 1; one task each *)
+Definition d21 (cp : nat) : st := init 3 [([0; 1; 2], 1); ([1; 0; 2], 1)] [2; 0; 1] cp.
 
-(* A sends to ports 0, 1, 2 in this order, B to 1, 0, 2; the consumer receives on 2, 0, 1; one task each; buffer size 1 *)
-Definition d21 (cp : nat) : st := init [([0; 1; 2], 1); ([1; 0; 2], 1)] [2; 0; 1] cp.
-
-(* A has sent to port 0, B to port 1: A's next send (port 1) and B's next send (port 0) block on full channels, the consumer
-   blocks on the empty port 2, which neither producer has reached; nobody is done *)
-Theorem fanin_deadlock : exists sched s, run (d21 1) sched = Some s /\ stuck s = true /\ all_done s = false.
-Proof. exists [Send 0; Send 1]. eexists. split; [vm_compute; reflexivity|]. split; vm_compute; reflexivity. Qed.
+(* buffer size 1.  A has sent to port 0, B to port 1: A's next send (port 1) and B's next send (port 0) block on full
+   channels, the consumer blocks on the empty port 2, which neither producer has reached; nobody is done; no action is
+   possible, whatever order it proposes for a next round *)
+Theorem fanin_deadlock :
+  exists sched s, run (d21 1) sched = Some s /\ (forall a, step s a = None) /\ Exists (fun p => left p <> 0) (prods s).
+Proof.
+  exists [Send 0 []; Send 1 []]. eexists. split; [vm_compute; reflexivity|]. split.
+  - intros [i next|next]; [|reflexivity]. destruct i as [|[|i]]; try reflexivity. simpl. destruct i; reflexivity.
+  - constructor. simpl. discriminate.
+Qed.
 
 (* the same configuration with capacity 2 = the number of producers is an instance of fanin_no_deadlock *)
 Corollary fanin_d21_cap2_ok l s : run (d21 2) l = Some s -> ~ finished 3 s -> exists a, step s a <> None.
